@@ -543,3 +543,93 @@ def r14m(ctx):
                                f"as 'any name' / 'no filter' — for those names another element is found")
     if n < 30:
         raise AnalysisError(f"R14m: only {n} lookup call(s) with a name keyword found")
+
+
+def r12u(ctx):
+    """What a mixin writes through `self.<name>` is a declared property of every element class that mixes it in.
+
+    The mixins (PosMix, SizeMix, AnchorMix, …) are plain classes; their setters write `self.pos_x = …`, relying on the element class to declare
+    `pos_x` as a PropDef (or property) that stores the XML attribute.  If one class of the family does not, the assignment creates a Python
+    attribute on the wrapper: the constructor argument is accepted, nothing reaches the XML, and it is gone after clone or reparse.  Rule: for
+    every non-Element class M of the package and every public name X that a method of M stores on `self`, every Element subclass with M in its
+    MRO has X among its properties (PropDef or property with a setter) or stores it in its own `__init__`.
+    """
+    from ..registry import element_classes, property_names
+    repo = ctx.repo
+    ctx.rule("R12u", "every `self.<name>` a mixin writes is a declared property of each element class that uses the mixin", floor=20)
+    el = repo.cls("Element")
+    elems = element_classes(repo)
+    n = 0
+    for m in repo.all_classes():
+        if m is el or el in m.mro:
+            continue
+        users = [c for c in elems if m in c.mro]
+        if not users:
+            continue
+        stores = {}
+        for name, fs in m.methods.items():
+            for f in fs:
+                if f.cls is not m or f.kind == "nested":
+                    continue
+                for a in walk_no_nested(f.node):
+                    tg = a.targets if isinstance(a, ast.Assign) else [a.target] if isinstance(a, (ast.AugAssign, ast.AnnAssign)) else []
+                    for t in tg:
+                        if isinstance(t, ast.Attribute) and isinstance(t.value, ast.Name) and t.value.id == "self" and not t.attr.startswith("_"):
+                            stores.setdefault(t.attr, (f, a))
+        for x, (f, a) in sorted(stores.items()):
+            for c in users:
+                n += 1
+                props = property_names(repo, c)
+                ok = props.get(x) in ("propdef", "property")
+                ctx.instance("R12u", f"{c.module.relpath}:{c.name}", f"{m.name} writes self.{x}: declared", ok=ok, nontrivial=True, line=c.node.lineno)
+                if not ok:
+                    ctx.report("R12u", c.module, c.node, f"{c.name}.{x} (written by {m.name}.{f.name})",
+                               f"{m.name}.{f.name} stores `self.{x}`, but {c.name} declares no property `{x}`: the value becomes a Python attribute of the wrapper, no XML "
+                               f"attribute is written, and it is lost on clone, serialisation or reparse")
+    if n < 20:
+        raise AnalysisError(f"R12u: only {n} (mixin store, element class) pair(s) found")
+
+
+def _dispatched_types(repo, f) -> set[str]:
+    """string constants the function compares a value-type with (`x == "float"`, `x in {"float", …}` with module constants folded)"""
+    out: set[str] = set()
+    for c in walk_no_nested(f.node):
+        if not (isinstance(c, ast.Compare) and len(c.ops) == 1):
+            continue
+        other = c.comparators[0]
+        if isinstance(c.ops[0], (ast.Eq, ast.NotEq)):
+            for side in (c.left, other):
+                v = repo.fold(side, f.module, f.cls) if not isinstance(side, ast.Name) or True else None
+                if isinstance(v, str):
+                    out.add(v)
+        elif isinstance(c.ops[0], (ast.In, ast.NotIn)):
+            v = repo.fold(other, f.module, f.cls)
+            if isinstance(v, (set, frozenset, tuple, list)):
+                out |= {x for x in v if isinstance(x, str)}
+    return out
+
+
+def r17n(ctx):
+    """Emptiness is judged by a reader that knows every value type.
+
+    `Cell.is_empty()` — what rstrip and optimize_width delete by — asks `self.value is not None`.  `Cell.value` dispatches on
+    `office:value-type` by hand, beside the general reader `ElementTyped._get_typed_value`.  A type the general reader decodes and `Cell.value`
+    does not know reads as None there: a trailing cell that holds only such a value is "empty" and is removed.  Rule (sibling agreement): every
+    value-type constant `_get_typed_value` dispatches on is also one `Cell.value` dispatches on.
+    """
+    repo = ctx.repo
+    ctx.rule("R17n", "Cell.value (the emptiness oracle) dispatches on every value type ElementTyped._get_typed_value decodes", floor=6)
+    g = repo.func("ElementTyped._get_typed_value")
+    f = repo.cls("Cell").lookup("value", "getter")
+    if f is None:
+        raise AnalysisError("R17n: Cell.value getter not found")
+    known, mine = _dispatched_types(repo, g), _dispatched_types(repo, f)
+    if len(known) < 6:
+        raise AnalysisError(f"R17n: only {sorted(known)} value types found in ElementTyped._get_typed_value")
+    for t in sorted(known):
+        ok = t in mine
+        ctx.instance("R17n", f"{f.file}:{f.ident}", f"value type {t!r} handled", ok=ok, nontrivial=True, line=f.node.lineno)
+        if not ok:
+            ctx.report("R17n", f, f.node, f"value type {t!r} not dispatched",
+                       f"Cell.value knows {sorted(mine)} but not {t!r}, which ElementTyped._get_typed_value decodes: a cell holding only such a value answers None, is_empty() says "
+                       f"empty, and rstrip()/optimize_width() delete it with its value")
